@@ -55,6 +55,7 @@ class Facts:
                 for e in d['enums']:
                     E.setdefault(e['name'], e)
             self.stats['overlay_units'] = len(paths)
+            self._overlay_typedefs = [t for u in paths for t in json.load(open(paths[u])).get('typedefs', [])]
         aff = set(affected)
         for i, f in base.F.items():
             if i not in F and base.fun_unit.get(i) not in aff:
@@ -66,6 +67,9 @@ class Facts:
         for n, e in base.E.items():
             E.setdefault(n, e)
         self.F, self.R, self.G, self.E, self.fun_unit = F, R, G, E, fun_unit
+        self.T = dict(base.T)
+        for t in getattr(self, '_overlay_typedefs', []):
+            self.T[t['name']] = t['ct']
         self.units = base.units
         self.paths = base.paths
         self.alt_roots = [(base.src_root, 'src/'), (base.gen_dir, 'gen/')]
@@ -90,9 +94,12 @@ class Facts:
                 data = None
         if data is None:
             F, R, G, E = {}, {}, {}, {}
+            T = {}
             fun_unit = {}
             for u in sorted(paths):
                 d = json.load(open(paths[u]))
+                for t in d.get('typedefs', []):
+                    T.setdefault(t['name'], t['ct'])
                 for f in d['functions']:
                     if f['id'] not in F:
                         F[f['id']] = f
@@ -105,7 +112,7 @@ class Facts:
                         G[k] = g
                 for e in d['enums']:
                     E.setdefault(e['name'], e)
-            data = (F, R, G, E, fun_unit)
+            data = (F, R, G, E, fun_unit, T)
             # keep only the newest few merged caches
             try:
                 olds = sorted((p for p in os.listdir(CACHE) if p.startswith('merged-')), key=lambda p: os.path.getmtime(os.path.join(CACHE, p)))
@@ -115,7 +122,8 @@ class Facts:
                 os.replace(pk + '.tmp', pk)
             except OSError:
                 pass
-        self.F, self.R, self.G, self.E, self.fun_unit = data
+        self.F, self.R, self.G, self.E, self.fun_unit = data[:5]
+        self.T = data[5] if len(data) > 5 else {}
         self.units = sorted(paths)
         self.load_s = round(time.time() - t0, 2)
 
@@ -198,6 +206,19 @@ class Facts:
         if call.get('virt') and not call.get('qual'):
             out += sorted(self.all_overriders(fid))
         return out
+
+    def expand_typedefs(self, t):
+        """replace typedef names of the repository inside a written type by their canonical types (two rounds)"""
+        import re
+        for _ in range(2):
+            def rep(m):
+                w = m.group(0)
+                for cand in (w, 'opensmt::' + w):
+                    if cand in self.T:
+                        return self.T[cand]
+                return w
+            t = re.sub(r'[A-Za-z_][A-Za-z_0-9:]*', rep, t)
+        return t
 
     # ---------- class hierarchy ----------
     def bases_of(self, cls, public_only=False):
